@@ -102,7 +102,7 @@ def _alarm(*a):
     raise Timeout()
 
 
-def take(gen_, n, seconds=2.0):
+def take(gen_, n, seconds=20.0):
     out, err = [], None
     signal.signal(signal.SIGALRM, _alarm)
     signal.setitimer(signal.ITIMER_REAL, seconds)
@@ -280,7 +280,8 @@ def run_replay(name, mode, preds, n_values, seed, max_draws=None):
     def one(ip):
         i, part = ip
         text = (enc.CASE_HEADER + enc.world_text() + COMMON_DEFS + run_def
-                + "\nDefinition cases := [\n" + ";\n".join(part) + "].\nEval vm_compute in map run cases.\n")
+                + "\nDefinition cases : list (fenv * kind * pred * list draw * list val * nat) := [\n" + ";\n".join(part)
+                + "].\nEval vm_compute in map run cases.\n")
         return vlib.parse_nat_list(vlib.coq_eval(f"{name}_{i}", text, timeout=900))
     codes = []
     with ThreadPoolExecutor(max_workers=12) as ex:
@@ -320,6 +321,10 @@ def grid_true(tier):
         ps += [all_p(e), any_p(e), is_set_of_p(e)]
     ps += [ge_p(3) & le_p(10), is_int_p & ge_p(0), ge_p(3) | le_p(-3), is_int_p | is_str_p, is_none_p | eq_p(5), all_p(all_p(ge_p(1))),
            has_key_p(3), has_key_p("k"), ge_p(5) & lt_p(5), eq_p(2) | is_none_p | is_bool_p]
+    # powerset generators (sets whose CPython iteration order is the ascending one the model assumes)
+    from predicate.set_predicates import is_real_subset_p, is_subset_p
+    ps += [is_subset_p({1, 2, 3}), is_real_subset_p({1, 2, 3}), is_subset_p({2}), is_real_subset_p({2}), is_subset_p(set()),
+           is_real_subset_p(set()), is_subset_p({0, 1, 2, 3}), is_real_subset_p({1, 2})]
     return ps
 
 
@@ -382,8 +387,10 @@ def count_lines(fn):
     return r, n[0]
 
 
-def pull(gen_, budget_lines=400000, seconds=3.0):
-    """next(gen) with a line-event budget: ('value', v, lines) | ('stop', None, lines) | ('spin', None, lines) | ('error', text, lines)"""
+def pull(gen_, budget_lines=400000, seconds=30.0):
+    """next(gen) with a line-event budget: ('value', v, lines) | ('stop', None, lines) | ('spin', None, lines) | ('error', text, lines)
+    | ('slow', None, lines).  Only the deterministic line-event budget decides 'spin'; the wall-clock limit is a safety net whose
+    expiry below the budget is reported as 'slow' (inconclusive: a loaded machine must not produce an alarm)"""
     n = [0]
 
     class Budget(Exception):
@@ -404,8 +411,10 @@ def pull(gen_, budget_lines=400000, seconds=3.0):
         return ("value", v, n[0])
     except StopIteration:
         return ("stop", None, n[0])
-    except (Budget, Timeout):
+    except Budget:
         return ("spin", None, n[0])
+    except Timeout:
+        return ("spin" if n[0] > budget_lines else "slow", None, n[0])
     except Exception as e:  # noqa: BLE001
         return ("error", f"{type(e).__name__}: {e}", n[0])
     finally:
